@@ -126,6 +126,10 @@ theorem remembered_length (g0 : Graph V) (h0 : Init g0) (ops : List (Op V)) (i :
   have h := (run_inv h0.inv ops).rem i s rv hs hr hf
   exact ⟨h.length_eq.symm, h⟩
 
+/-- the executable cone used by the driver's `no_spurious` oracle is the cone `Reach` of the theorems -/
+theorem inCone_iff_reach (g : Graph V) (hwf : WF g) (j k : Nat) : inCone (j+1) g j k = true ↔ Reach g j k :=
+  inCone_iff hwf (j+1) j k (Nat.lt_succ_self j)
+
 /-- the guard is preserved: the model never creates a dependency on a node with a larger id -/
 theorem wf_preserved (g0 : Graph V) (h0 : Init g0) (ops : List (Op V)) : WF (run g0 ops).1 :=
   (run_inv h0.inv ops).wf
